@@ -60,6 +60,29 @@ def _run(prog, chk):
     chk.ob("C14.bounds", "dispatch:recv", w is None,
            "recv into %s + %s of at most %s bytes happens only when %s + %s <= sizeof(%s)" % (bufk, offk, size, offk, size, bufk),
            loc=fn.loc(n["ln"]), fn=fn, path=None if w is None else path_lines(fn, w))
+    # progress: what stays in the buffer after the extraction loop is the beginning of one PDU (at most 4 + 0xffff - 1 octets); the
+    # read guard must be true for every such fill level, otherwise the rest of that PDU is never read (the client waits for ever)
+    guard = None
+    for bid in fn.blocks:
+        c = fn.branch_cond(bid)
+        c = strip(fn.deep(c)) if c is not None else None
+        if isinstance(c, dict) and c.get("k") == "bin" and c.get("op") in ("<=", "<") and lhs(fn, c["l"]) and rhs(fn, c["r"]):
+            guard = (c, fn.blocks[bid]["term"].get("ln"))
+    nval = fn.resolve(strip(n["a"][2]))
+    rec = None
+    for b2, i2, n2 in fn.nodes():
+        if n2.get("k") == "mem" and text(fn, n2) == bufk and n2.get("r"):
+            rec = n2["r"]
+    fld = [f for f in prog.record(rec)["fields"] if f["n"] == bufk.split("->")[-1].split(".")[-1]] if rec else []
+    if guard is None or not is_int(nval) or len(fld) != 1 or not fld[0].get("array"):
+        raise AnalysisBroken("dispatch: read guard / chunk size / buffer size not resolved (%s, %s, %s)" % (guard is not None, nval, fld))
+    cap, chunk, maxpdu = fld[0]["array"] * fld[0].get("esize", 1), strip(nval)["v"], 4 + 0xffff
+    worst = maxpdu - 1
+    okroom = worst + chunk <= cap if guard[0]["op"] == "<=" else worst + chunk < cap
+    chk.ob("C14.bounds", "dispatch:room", okroom,
+           "with the beginning of a PDU waiting in the buffer (up to %d octets) the guard %s + %d %s %d still lets the client read: %s"
+           % (worst, offk, chunk, guard[0]["op"], cap, "yes" if okroom else "NO - from %d octets on nothing more is read and the PDU is never completed"
+              % (cap - chunk + (1 if guard[0]["op"] == "<=" else 0))), loc=fn.loc(guard[1]), fn=fn)
     # extraction
     mr = list(fn.calls("KSI_FTLV_memRead"))
     osn = [(b2, i2, n2) for b2, i2, n2 in fn.calls("KSI_OctetString_new") if text(fn, n2["a"][1]) == bufk]
